@@ -336,9 +336,9 @@ c15_consumer! {c15_consumer_n2, 2, |p| [fresh(p[0]), fresh(p[1])]}
 c15_consumer! {c15_consumer_n3, 3, |p| [fresh(p[0]), fresh(p[1]), fresh(p[2])]}
 
 macro_rules! c15_consumer_clone {
-    ($name:ident, $n:literal, |$p:ident| $arr:expr) => {
+    ($name:ident, $n:literal, $keep:literal, |$p:ident| $arr:expr) => {
         harness! {
-            /// kind=bounded tier=quick bound="ArrayConsumer<L, N>, N fixed per harness (1,2,3), symbolic u32 payloads; k <= N takes from symbolic ends, then clone; either the clone or the original is dropped at once, the survivor gives up to one more element from a symbolic end and is dropped"
+            /// kind=bounded tier=quick bound="ArrayConsumer<L, N>, N fixed per harness (1,2,3), symbolic u32 payloads; k <= N takes from symbolic ends, then clone; the original (harnesses *_keep_*) or the clone (harnesses *_drop_*) is dropped at once, the survivor gives up to one more element from a symbolic end and is dropped"
             #[kani::unwind(18)]
             fn $name(s) {
                 const N: usize = $n;
@@ -364,7 +364,7 @@ macro_rules! c15_consumer_clone {
                 chk!(s, ok, "C15.consumer.clone_has_one_fresh_clone_per_untaken_element_in_order");
                 chk!(s, slice_matches(c.as_slice(), &m), "C15.consumer.clone_leaves_original");
                 let rem = m.rem();
-                let keep_clone = s.bool();
+                let keep_clone: bool = $keep;
                 let mut sv = if keep_clone {
                     drop(c);
                     chk!(s, rem_count(&m.ids, m.lo, m.hi, 1), "C15.consumer.drop_drops_untaken_elements_exactly_once");
@@ -393,17 +393,20 @@ macro_rules! c15_consumer_clone {
                 }
                 drop(sv);
                 chk!(s, all_once(), "C15.consumer.every_element_handed_over_or_dropped_exactly_once");
-                cov!(s, keep_clone && rem == N && more, "C15.cover.consumer_clone_of_everything_survives");
-                cov!(s, !keep_clone && rem + 1 == N, "C15.cover.consumer_clone_after_take_dropped");
+                cov!(s, rem == N && more, "C15.cover.consumer_clone_of_everything");
+                cov!(s, rem + 1 == N && !more, "C15.cover.consumer_clone_after_take");
                 cov!(s, rem == 0, "C15.cover.consumer_clone_of_exhausted");
             }
         }
     };
 }
 
-c15_consumer_clone! {c15_consumer_clone_n1, 1, |p| [fresh(p[0])]}
-c15_consumer_clone! {c15_consumer_clone_n2, 2, |p| [fresh(p[0]), fresh(p[1])]}
-c15_consumer_clone! {c15_consumer_clone_n3, 3, |p| [fresh(p[0]), fresh(p[1]), fresh(p[2])]}
+c15_consumer_clone! {c15_consumer_clone_keep_n1, 1, true, |p| [fresh(p[0])]}
+c15_consumer_clone! {c15_consumer_clone_keep_n2, 2, true, |p| [fresh(p[0]), fresh(p[1])]}
+c15_consumer_clone! {c15_consumer_clone_keep_n3, 3, true, |p| [fresh(p[0]), fresh(p[1]), fresh(p[2])]}
+c15_consumer_clone! {c15_consumer_clone_drop_n1, 1, false, |p| [fresh(p[0])]}
+c15_consumer_clone! {c15_consumer_clone_drop_n2, 2, false, |p| [fresh(p[0]), fresh(p[1])]}
+c15_consumer_clone! {c15_consumer_clone_drop_n3, 3, false, |p| [fresh(p[0]), fresh(p[1]), fresh(p[2])]}
 
 harness! {
     /// kind=bounded tier=quick bound="ArrayConsumer::<L, N>::empty(), N in {0,1,2,3}: next, next_back, as_slice, clone, drop"
